@@ -16,7 +16,8 @@ followed by a host plan of data-stage / status-stage transactions (IN first, OUT
 repeated INs, bulk IN to EP1 with ACK in the middle, SOF).  The rest are supported requests that move the device
 state (SET_ADDRESS, SET_CONFIGURATION, GET_DESCRIPTOR, GET_STATUS, GET_CONFIGURATION, CLEAR_FEATURE(ENDPOINT_HALT),
 the claimed vendor request), completed legally or (in 60 % of the sessions, ~20 % of them) abandoned by the host part-way, so that the unsupported
-request meets the handlers in every state.
+request meets the handlers in every state; and pairs "GET_DESCRIPTOR of a descriptor the device lacks (ends with STALL)
+immediately followed by an unsupported request" (no-data / IN with data + OUT status / OUT with data).
 
 Monitors: every packet the device transmits (wire capture of the host model), attributed to the host transaction
 that solicited it; every cycle: address, configuration, clear-halt strobe at the spy endpoint; EP1 data PID sequence.
@@ -33,10 +34,9 @@ A failed supported request is only counted (event `supported_failed`).  The effe
 toggle is not judged a second time (the strobe is); an unexplained toggle change is.
 
 Mechanism names = effect + classifier context (history pattern only; the verdict never depends on it):
-  * handler context `abandoned`: the host abandoned an earlier standard-type transfer of this session (script flag; sticky
-    for the rest of the session, because the descriptor sub-handler keeps a pending stream that surfaces many transfers
-    later; 40 % of the sessions contain no abandoned transfer), or an unsupported standard request never reached a STALL
-    and no supported standard transfer has completed since
+  * handler context `abandoned`: the host abandoned the previous standard-type transfer (script flag) or an unsupported
+    standard request never reached a STALL, and no supported standard transfer has completed since (not sticky: since
+    the repair of StandardRequestHandler a new SETUP restarts the handler, so nothing later may be excused)
     -> `unsupported_request_{answered,not_stalled,state_changed}_after_abandoned_transfer`;
   * handler context `clear_feature`: the previous standard-type transfer was an unsupported CLEAR_FEATURE and the host has
     not sent an ACK while a standard request was current since
@@ -63,10 +63,11 @@ REQUIRED_BINS = ["std_unimplemented_request", "std_request_one_bit_from_supporte
                  "vendor_handler_absent", "claimed_number_other_type", "claimed_type_other_number", "wlength_zero", "in_with_data",
                  "out_with_data", "plan_out_data_then_in", "plan_out_status_first", "plan_second_in", "plan_bulk_between",
                  "address_nonzero_during_request", "config_nonzero_during_request", "after_abandoned_transfer",
-                 "after_unsupported_clear_feature", "after_completed_supported", "endpoint_recipient_value0", "one_field_from_supported", "timing_fs12",
+                 "after_unsupported_clear_feature", "after_completed_supported", "after_stalled_supported_request",
+                 "after_stalled_nodata", "after_stalled_in_data", "after_stalled_out_data", "endpoint_recipient_value0", "one_field_from_supported", "timing_fs12",
                  "timing_fs60", "tx_backpressure"]
 REQUIRED_EVENTS = ["cycles_monitored", "unsupported_judged", "stall_seen", "setup_acked", "first_in_judged", "out_data_judged",
-                   "bulk_in_packets", "bulk_toggle_checked", "supported_completed", "legit_clear_halt_strobes", "address_changes", "config_changes"]
+                   "bulk_in_packets", "bulk_toggle_checked", "supported_ended_with_stall", "supported_completed", "legit_clear_halt_strobes", "address_changes", "config_changes"]
 ASSUMPTIONS = [
     "supported standard requests are those StandardRequestHandler documents: GET_STATUS, CLEAR_FEATURE(ENDPOINT_HALT) on an "
     "endpoint, SET_ADDRESS, GET_DESCRIPTOR, GET_CONFIGURATION, SET_CONFIGURATION; everything else of type standard is unsupported",
@@ -344,6 +345,26 @@ def run_case(rng, tier, res):
         else:
             name, s, abandon = gen_supported(rng, vendor_present, allow_abandon)
             script.append({"what": "supported", "name": name, "setup": s, "abandon": abandon})
+        if rng.random() < 0.22:
+            # a supported-type request that *ends with a STALL* (descriptor the device lacks), IMMEDIATELY followed by an
+            # unsupported request: the handler must be idle again
+            val = rng.choice([0x0600, 0x0600, 0x0700, 0x0F00, 0x0305, 0x0201, 0x2200, 0x0400])
+            script.append({"what": "supported", "name": "get_descriptor_missing", "abandon": None, "expect_stall": True,
+                           "setup": U.setup_bytes(0x80, 6, val, rng.choice([0, 0, 0x0409]), rng.choice([10, 18, 18, 255]))})
+            w = rng.random()
+            if w < 0.35:
+                s2 = U.setup_bytes(rng.choice([0x00, 0x01, 0x02]), rng.choice([3, 3, 11, 7]), rng.choice([0, 1, 2]), rng.choice([0, 1, 0x81]), 0)
+                plan = [("in",)] + ([("in",)] if rng.random() < 0.3 else [])
+            elif w < 0.75:
+                s2 = U.setup_bytes(rng.choice([0x80, 0x81, 0x82]), rng.choice([10, 10, 12, 2, 0x86]), rng.choice([0x0100, 0x0100, 0x0200, 0]),
+                                   rng.choice([0, 0, 0x81]), rng.choice([18, 18, 1, 2, 64]))
+                plan = [("in",), ("out", 0, U.DATA1, "extra")] + ([("in",)] if rng.random() < 0.3 else [])
+            else:
+                s2 = U.setup_bytes(rng.choice([0x00, 0x01]), rng.choice([7, 3, 11]), rng.choice([0x0100, 0]), 0, rng.choice([18, 8, 2]))
+                plan = [("out", min(8, s2[6]), U.DATA1, "data"), ("in",)]
+            c2 = classify_request(s2, vendor_present)
+            if c2[0] == "unsupported":
+                script.append({"what": "unsupported", "cls": c2[1], "setup": s2, "plan": plan, "after_stalled": True})
         if rng.random() < 0.15:
             script.append({"what": "bulk"})
     res.sig(timing, vendor_present, ready_profile, gap_profile, [(t["what"], t.get("setup"), t.get("plan"), t.get("abandon")) for t in script])
@@ -354,7 +375,7 @@ def run_case(rng, tier, res):
     out = []                       # (mechanism, detail)
     st = {"cur": None,             # the transfer whose SETUP was sent last: dict(judged, setup, addr, cfg, ...)
           "prev_addr": 0, "prev_cfg": 0,
-          "ever_abandoned": False,  # classifier: sticky for the rest of the session (sub-handlers keep residue, see docstring)
+          "ever_abandoned": False,
           "std_stale": None,       # classifier: None | 'abandoned' | 'clear_feature'  (why the standard handler may not be idle)
           "bulk_expect": {1: U.DATA0, 2: U.DATA0}, "classes": set()}
 
@@ -416,7 +437,7 @@ def run_case(rng, tier, res):
     hist = []
 
     def begin(t, judged):
-        cur = {"judged": judged, "setup": t["setup"], "cls": t.get("cls"), "name": t.get("name"), "ctx": st["std_stale"] or ("abandoned" if st["ever_abandoned"] else None),
+        cur = {"judged": judged, "setup": t["setup"], "cls": t.get("cls"), "name": t.get("name"), "ctx": st["std_stale"],
                "hist": list(hist[-6:]), "stalled": False, "host_acks": 0, "stale0": st["std_stale"]}
         hist.append((t.get("cls") or t.get("name"), t["setup"].hex(), t.get("abandon")))
         return cur
@@ -470,7 +491,11 @@ def run_case(rng, tier, res):
         s = t["setup"]
         if (s[0] & 0x1F) == 2 and s[2] == 0 and s[3] == 0 and s[6] == 0 and s[7] == 0:
             res.bin("endpoint_recipient_value0")
-        c0 = st["std_stale"] or ("abandoned" if st["ever_abandoned"] else None)
+        c0 = st["std_stale"]
+        if t.get("after_stalled"):
+            res.bin("after_stalled_supported_request")
+            res.bin("after_stalled_nodata" if (t["setup"][6] | t["setup"][7]) == 0 else
+                    ("after_stalled_in_data" if t["setup"][0] & 0x80 else "after_stalled_out_data"))
         if c0 == "abandoned":
             res.bin("after_abandoned_transfer")
         elif c0 == "clear_feature":
@@ -577,13 +602,19 @@ def run_case(rng, tier, res):
         typ = (s[0] >> 5) & 3
         if not ok:
             res.event("supported_failed")
-            if typ == 0 and st["std_stale"] is None and not st["ever_abandoned"]:
+            if typ == 0 and st["std_stale"] is None:
                 st["std_stale"] = "failed"
             return
         wlen = s[6] | (s[7] << 8)
         done = False
         if abandon == "after_setup":
             pass
+        elif t.get("expect_stall"):
+            r = yield from host.in_transaction(addr(), 0)
+            yield from host.gap()
+            done = r["kind"] == "handshake" and r["pid"] == U.STALL
+            if done:
+                res.event("supported_ended_with_stall")
         elif s[0] & 0x80:
             # IN data stage
             r = yield from host.in_transaction(addr(), 0, ack="none" if abandon == "no_ack" else "ack")
@@ -625,7 +656,7 @@ def run_case(rng, tier, res):
             elif abandon is not None or st["std_stale"] is not None:
                 st["std_stale"] = "abandoned" if abandon is not None else st["std_stale"]
                 st["ever_abandoned"] = st["ever_abandoned"] or abandon is not None
-            elif not st["ever_abandoned"]:
+            else:
                 st["std_stale"] = "failed"      # a fresh handler failed a supported request: not a known pattern
 
     def driver():
